@@ -80,8 +80,11 @@ func (x *XArray) Format(env envs.Environment) string {
 
 	if multiline {
 		for i, p := range parts {
-			p = utils.Indent(p, "  ")
-			parts[i] = "-" + p[1:]
+			// the dash takes the place of the first space of the indentation, which an empty item doesn't have
+			if p = utils.Indent(p, "  "); p != "" {
+				p = p[1:]
+			}
+			parts[i] = "-" + p
 		}
 
 		return strings.Join(parts, "\n")
